@@ -87,6 +87,9 @@ class MemFS:
 
 
 class MemFile:
+    by_fd = {}
+    _next_fd = [1000]
+
     def __init__(self, fs, path, mode, text):
         self.fs = fs
         self.path = path
@@ -94,6 +97,42 @@ class MemFile:
         self.text = text
         self.buf = b""
         self.closed = False
+        self.fd = None
+
+    def fileno(self):
+        if self.fd is None:
+            self.fd = MemFile._next_fd[0]
+            MemFile._next_fd[0] += 1
+            if len(MemFile.by_fd) > 256:
+                MemFile.by_fd.clear()
+            MemFile.by_fd[self.fd] = self
+        return self.fd
+
+    def flush(self):
+        pass
+
+    def sync(self):
+        """os.fsync: what was written so far becomes durable now"""
+        if self.fs.dead:
+            raise Crash()
+        if self.mode == "w" and not self.closed:
+            self.fs.files[self.path] = self.buf
+            self.fs.history.append((self.path, self.buf))
+
+    def readable(self):
+        return self.mode == "r"
+
+    def writable(self):
+        return self.mode == "w"
+
+    def readline(self):
+        data = self.read()
+        i = data.find("\n" if self.text else b"\n")
+        return data if i < 0 else data[:i + 1]
+
+    def __iter__(self):
+        data = self.read()
+        return iter(data.splitlines(True))
 
     def __enter__(self):
         return self
@@ -104,11 +143,14 @@ class MemFile:
         self.close()
         return False
 
-    def read(self):
+    def read(self, n=-1):
         r = self.fs.point("read", self.path)
         if r == "fail":
             raise OSError("read failed")
         data = self.fs.files.get(self.path, b"")
+        pos = getattr(self, "pos", 0)
+        data = data[pos:] if n is None or n < 0 else data[pos:pos + n]
+        self.pos = pos + len(data)
         if r == "crash-after":
             self.fs.do_crash()
         return data.decode() if self.text else data
@@ -195,3 +237,102 @@ class FakeOs:
         self.fs.history.append((src, None))
 
     replace = rename
+
+
+class GlobalRoute:
+    """Routes the process-wide file API (open / io.open / os.stat / os.path.* / os.remove / os.rename /
+    os.replace / os.fsync / shutil.move, copy*) to a MemFS for every path under ``prefix`` and leaves
+    all other paths alone.  The module-level seams (``ledger.pin.open`` ...) stay; this catches the
+    code under test reaching its PIN file through another door (pathlib, io.open, os.replace of a
+    temporary file next to it, ``from os.path import isfile``)."""
+
+    def __init__(self, fs, prefix):
+        self.fs = fs
+        self.prefix = prefix
+        self.saved = []
+
+    def _route(self, p):
+        import os
+        try:
+            p = os.fspath(p)
+        except TypeError:
+            return None
+        if isinstance(p, bytes):
+            p = p.decode(errors="replace")
+        return p if isinstance(p, str) and p.startswith(self.prefix) else None
+
+    def install(self):
+        import builtins
+        import io
+        import os
+        import shutil
+        import stat as _stat
+        fs, route = self.fs, self._route
+        fos, fsh = FakeOs(fs), FakeShutil(fs)
+
+        def patch(mod, name, make):
+            real = getattr(mod, name)
+            self.saved.append((mod, name, real))
+            setattr(mod, name, make(real))
+
+        def opener(real):
+            def open_(file, mode="r", *a, **k):
+                r = route(file)
+                return fs.open(r, mode, *a, **k) if r else real(file, mode, *a, **k)
+            return open_
+        patch(builtins, "open", opener)
+        patch(io, "open", opener)
+
+        def stat_(real):
+            def stat(path, *a, **k):
+                r = route(path) if not isinstance(path, int) else None
+                if r is None:
+                    return real(path, *a, **k)
+                if fs.dead:
+                    raise Crash()
+                if r in fs.files:
+                    return os.stat_result((_stat.S_IFREG | 0o600, 1, 1, 1, 0, 0, len(fs.files[r]), 0, 0, 0))
+                if r.rstrip("/") == self.prefix.rstrip("/"):
+                    return os.stat_result((_stat.S_IFDIR | 0o700, 1, 1, 1, 0, 0, 0, 0, 0, 0))
+                raise FileNotFoundError(2, "No such file or directory", r)
+            return stat
+        patch(os, "stat", stat_)
+        patch(os, "lstat", stat_)
+
+        def one(fake):
+            def make(real):
+                def f(path, *a, **k):
+                    r = route(path)
+                    return fake(r) if r else real(path, *a, **k)
+                return f
+            return make
+
+        def two(fake):
+            def make(real):
+                def f(src, dst, *a, **k):
+                    rs, rd = route(src), route(dst)
+                    return fake(rs, rd) if (rs and rd) else real(src, dst, *a, **k)
+                return f
+            return make
+        for n in ("remove", "unlink"):
+            patch(os, n, one(fos.remove))
+        for n in ("rename", "replace"):
+            patch(os, n, two(fos.rename))
+        patch(shutil, "move", two(fsh.move))
+        for n in ("copy", "copyfile", "copy2"):
+            patch(shutil, n, two(fsh.copy))
+
+        def fsync_(real):
+            def fsync(fd):
+                f = MemFile.by_fd.get(fd)
+                if f is None:
+                    return real(fd)
+                f.sync()
+            return fsync
+        patch(os, "fsync", fsync_)
+        return self
+
+    def restore(self):
+        for mod, name, real in reversed(self.saved):
+            setattr(mod, name, real)
+        self.saved = []
